@@ -275,7 +275,71 @@ def stage_scanquoted(ctx):
                               "impl_verdicts": verdicts}
 
 
-STAGES = [stage_unescape, stage_appendparam, stage_scanquoted]
+# --------------------------------------------------------------------------------------------
+# stage 4: end to end - a value that needs no quotes means the same with and without them, whatever blanks separate it
+
+
+E2E_SLOTS = [
+    # (template with {P} = the parameter list, [values])
+    (b"JSIGHT 0.3\nINFO\n  Title{P}\n  Version 1\n", [[b"Pets"], [b"a-b.c"]]),
+    (b"JSIGHT 0.3\nINFO\n  Title T\n  Version{P}\n", [[b"1.0"], [b"v2"]]),
+    (b"JSIGHT 0.3\nSERVER @s\n  BaseUrl{P}\n", [[b"https://x.y/z"]]),
+    (b"JSIGHT 0.3\nSERVER{P}\n  BaseUrl \"https://x.y\"\n", [[b"@prod"]]),
+    (b"JSIGHT 0.3\nGET{P}\n  200 any\n", [[b"/cats"], [b"/cats/{id}"]]),
+    (b"JSIGHT 0.3\nURL{P}\n  GET\n    200 any\n", [[b"/cats"]]),
+    (b"JSIGHT 0.3\nGET /c\n  Query{P}\n    {}\n  200 any\n", [[b"page=1"], [b"page=1", b"noFormat"], [b"a=1&b=2", b"htmlFormEncoded"]]),
+    (b"JSIGHT 0.3\nTYPE @t\n  {}\nGET /c\n  200{P}\n", [[b"@t"], [b"any"], [b"[@t]"]]),
+    (b"JSIGHT 0.3\nTYPE @t\n  {}\nPOST /c\n  Request{P}\n  200 any\n", [[b"@t"], [b"empty"]]),
+    (b"JSIGHT 0.3\nTYPE{P}\n  {}\n", [[b"@t"]]),
+    (b"JSIGHT 0.3\nTYPE{P}\n  /a/\n", [[b"@t", b"regex"]]),
+    (b"JSIGHT 0.3\nTAG{P}\nGET /c\n  Tags @t\n  200 any\n", [[b"@t"]]),
+    (b"JSIGHT 0.3\nTAG @a\nTAG @b\nGET /c\n  Tags{P}\n  200 any\n", [[b"@a"], [b"@a", b"@b"]]),
+    (b"JSIGHT 0.3\nURL /r\n  Protocol{P}\n  Method m\n", [[b"json-rpc-2.0"]]),
+    (b"JSIGHT 0.3\nURL /r\n  Protocol json-rpc-2.0\n  Method{P}\n", [[b"foo"], [b"a.b"]]),
+    (b"JSIGHT 0.3\nMACRO{P}\n(\n  200 any\n)\nGET /c\n  PASTE @m\n", [[b"@m"]]),
+    (b"JSIGHT 0.3\nMACRO @m\n(\n  200 any\n)\nGET /c\n  PASTE{P}\n", [[b"@m"]]),
+]
+E2E_SEPS = [b" ", b"\t", b"  ", b" \t", b"\t "]
+E2E_TAILS = [b"", b" ", b"\t", b"\t# c", b" # c", b"\t\t", b" \t "]
+
+
+def stage_e2e(ctx):
+    if ctx.replay is not None and ctx.replay.get("stage") != "e2e":
+        return
+    from .. import proj as P
+    cases = []
+    for tpl, value_lists in E2E_SLOTS:
+        for vals in value_lists:
+            canon = tpl.replace(b"{P}", b"".join(b" " + DQ + v + DQ for v in vals))
+            for sep in E2E_SEPS:
+                for tail in E2E_TAILS:
+                    for quoted in (False, True):
+                        if quoted and sep == b" " and tail == b"":
+                            continue
+                        ps = b"".join(sep + ((DQ + v + DQ) if quoted else v) for v in vals) + tail
+                        cases.append((canon, tpl.replace(b"{P}", ps), quoted))
+    docs = sorted({c for c, _, _ in cases} | {d for _, d, _ in cases})
+    outs = dict(zip(docs, C.run_sharded("harness", "fn", [P.run_line("out=sha", [("a.jst", d)]) for d in docs])))
+    ctx.res.count(len(docs))
+    n_ok = 0
+    for canon, d, quoted in cases:
+        a, b = outs[canon], outs[d]
+        sa, da = P.parse(a)
+        sb, db = P.parse(b)
+        if sa != "ok":
+            ctx.bad("e2e", canon, "the canonical spelling %r is rejected: %s" % (canon, a[:120]), "ok", a[:120], "unescape_quote (end to end)")
+            continue
+        n_ok += 1
+        ctx.res.nontrivial(("e2e", d))
+        if sb != "ok" or da.get("sha") != db.get("sha"):
+            ctx.spec_bad.append(("e2e", d, "the %s spelling %r does not mean what the canonical quoted spelling %r means: %s" % (
+                "quoted" if quoted else "bare", d, canon, (b[:100] if sb != "ok" else "accepted with a different catalog")),
+                "same catalog", b[:120], "unescape_quote (end to end)"))
+    ctx.dist["e2e"] = {"documents": len(docs), "pairs": len(cases), "canonical_accepted": n_ok, "separators": [x.decode() for x in E2E_SEPS],
+                       "tails": [x.decode() for x in E2E_TAILS]}
+
+
+STAGES = [stage_unescape, stage_appendparam, stage_scanquoted, stage_e2e]
 
 
 def run(res, tier, seed, replay):
@@ -306,7 +370,8 @@ def judge(res, pr, corr_bad, spec_bad):
             continue
         seen.add((stage, theorem))
         shown += 1
-        res.violation(what, {"stage": stage, "input": C.hx(inp), "expected": expected, "got": got, "theorem": theorem})
+        rpd = {"stage": stage, "input": C.hx(inp), "expected": expected, "got": got, "theorem": theorem}
+        res.violation(what, rpd)
         if shown >= 8:
             break
     if spec_bad:
